@@ -178,7 +178,7 @@ func (w *Reconciler) syncJobTasks(
 	// NOTE(irvinlim): Avoid using List() which performs a complete linear search.
 	tasks := make([]jobtasks.Task, 0, len(rj.Status.Tasks))
 	for _, ref := range rj.Status.Tasks {
-		task, err := w.getTaskForRef(ctx, taskMgr, ref)
+		task, err := w.getTaskForRef(ctx, rj, taskMgr, ref)
 		if err != nil {
 			return rj, err
 		}
@@ -247,13 +247,18 @@ func (w *Reconciler) syncJobTasks(
 // current version is read from the apiserver instead of reverting to the stale one.
 // Returns nil if the task does not exist.
 func (w *Reconciler) getTaskForRef(
-	ctx context.Context, taskMgr jobtasks.Executor, ref execution.TaskRef,
+	ctx context.Context, rj *execution.Job, taskMgr jobtasks.Executor, ref execution.TaskRef,
 ) (jobtasks.Task, error) {
 	task, err := taskMgr.Lister().Get(ref.Name)
-	if err == nil && (ref.FinishTimestamp.IsZero() || isTaskFinished(task)) {
+
+	// A cached object with the task's name that is not controlled by the Job is not the task
+	// (something else has, or had, that name): it is treated like a cache miss.
+	cached := err == nil && isControlledByJob(rj, task)
+
+	if cached && (ref.FinishTimestamp.IsZero() || isTaskFinished(task)) {
 		return task, nil
 	}
-	if err != nil && !ref.FinishTimestamp.IsZero() {
+	if !cached && !ref.FinishTimestamp.IsZero() {
 		return nil, nil
 	}
 	task, err = taskMgr.Client().Get(ctx, ref.Name)
@@ -262,6 +267,9 @@ func (w *Reconciler) getTaskForRef(
 	}
 	if err != nil {
 		return nil, errors.Wrapf(err, "cannot get task %v", ref.Name)
+	}
+	if !isControlledByJob(rj, task) {
+		return nil, nil
 	}
 	return task, nil
 }
@@ -915,7 +923,7 @@ func (w *Reconciler) handleFinishFinalizer(
 	// Use CreatedTaskRefs as they are guaranteed to contain all tasks that have been created by this Job.
 	tasks := make([]jobtasks.Task, 0, len(rj.Status.Tasks))
 	for _, taskRef := range rj.Status.Tasks {
-		task, err := w.getTaskForRef(ctx, taskMgr, taskRef)
+		task, err := w.getTaskForRef(ctx, rj, taskMgr, taskRef)
 		if err != nil {
 			return rj, err
 		}
@@ -929,6 +937,9 @@ func (w *Reconciler) handleFinishFinalizer(
 			}
 			if err != nil {
 				return rj, errors.Wrapf(err, "cannot get task %v", taskRef.Name)
+			}
+			if task != nil && !isControlledByJob(rj, task) {
+				task = nil
 			}
 		}
 		if task != nil {
